@@ -95,6 +95,15 @@ def D11():
             bad.append((s, repr(e)))
     return not bad, repr(bad)[:200]
 
+def D17():
+    """known finding (not repaired): nice(1) of [0.59096, 0.591] ends on 0.59105 = an odd multiple of the ORIGINAL step 5e-5,
+    while the widened domain's own step is 2e-4 -> not a multiple of a tenth of it"""
+    from labella.scale import LinearScale, d3_scale_linearTickRange
+    d = LinearScale().domain([0.5909599999999999, 0.591]).nice(1).domain()
+    step = d3_scale_linearTickRange(list(d), 1)[2]
+    q = d[1] / (step / 10)
+    return abs(q - round(q)) < 1e-6, "nice -> %r, step of that domain %r, upper end / (step/10) = %r" % (d, step, q)
+
 if __name__ == "__main__":
     names = sys.argv[1:] or ["D%d" % i for i in range(1, 12)]
     rc = 0
